@@ -33,7 +33,8 @@ Import ListNotations.
 
 Inductive cls := Bound | Late | Unbound | Unknown.
 
-Inductive proto := PSession | PGennaro | PHjky | PRedistribute | PDkls23 | PLindell22 | PBoldyreva.
+Inductive proto := PSession | PGennaro | PHjky | PRedistribute | PDkls23 | PLindell22 | PBoldyreva
+                 | PCanetti | PAor | PSoftspoken.
 
 (* fields of the dossiers, one inductive per protocol; vector entries carry their index *)
 Inductive sfld := SCk | SCc | SContrib | SWit | SPcom | SPcontrib | SPwit.
@@ -45,6 +46,10 @@ Inductive dfld := DRcom | DMs | DBigR | DRwit | DPhi | DPk | DGammaU | DGammaV |
                 | DATilde | DEta | DMu | DPartR | DPartU | DPartW.
 Inductive lfld := LRcom | LZVv (k : nat) | LZShId | LZSh | LBigR | LOpen | LPrf | LPartE | LPartR | LPartS.
 Inductive bfld := BSigma | BPop.
+Inductive cfld := CV | CSid | CShId | CRho | CX (k : nat) | CA | CU | CShareId | CShare | CPsiA | CPsiE | CPsiZ.
+Inductive afld := ACom | AMsg | AWit.
+(* softspoken DKLs23: the signing-level leaves of dfld plus the OT-extension message *)
+Inductive ofld := OSign (f : dfld) | OOtU | OOtX | OOtT.
 
 Definition session_class (f : sfld) : cls :=
   match f with SCk => Unbound | _ => Bound end.
@@ -59,6 +64,13 @@ Definition dkls_class (f : dfld) : cls :=
   end.
 Definition lindell22_class (f : lfld) : cls := Bound.
 Definition boldyreva_class (f : bfld) : cls := Bound.
+Definition canetti_class (f : cfld) : cls := Bound.
+Definition aor_class (f : afld) : cls := Bound.
+Definition softspoken_class (f : ofld) : cls :=
+  match f with
+  | OSign DPsi => Late     (* as in the bbot variant: no check of the recipient reads psi *)
+  | _ => Bound             (* phi IS bound here: the OT-extension consistency check covers the base-OT view *)
+  end.
 
 (* wire names: (round that produced the message, broadcast?, field path with indices removed);
    vector entries: the indices are removed, so entry 0 stands for all; the rows / cols integers of
@@ -153,6 +165,28 @@ Definition lindell22_table : list (nat * bool * N * lfld) := Eval vm_compute in
 Definition boldyreva_table : list (nat * bool * N * bfld) := Eval vm_compute in
   [ (1, true, B "sigma_i.v.compressedBytes", BSigma);
     (1, true, B "sigma_i.pop.v.compressedBytes", BPop) ].
+Definition canetti_table : list (nat * bool * N * cfld) := Eval vm_compute in
+  [ (1, true, B "V", CV);
+    (2, true, B "Message.SessionID", CSid); (2, true, B "Message.SharingID", CShId); (2, true, B "Message.Rho", CRho);
+    (2, true, B "Message.X.verification_vector.data.compressedBytes", CX 0);
+    (2, true, B "Message.X.verification_vector.rows", CX 0); (2, true, B "Message.X.verification_vector.cols", CX 0);
+    (2, true, B "Message.A.a.compressedBytes", CA); (2, true, B "U", CU);
+    (2, false, B "Share.id", CShareId); (2, false, B "Share.value.fieldBytes", CShare);
+    (3, true, B "Psi.A.a.compressedBytes", CPsiA); (3, true, B "Psi.E", CPsiE); (3, true, B "Psi.Z.z.fieldBytes", CPsiZ) ].
+Definition aor_table : list (nat * bool * N * afld) := Eval vm_compute in
+  [ (1, true, B "commitment", ACom); (2, true, B "message", AMsg); (2, true, B "witness", AWit) ].
+Definition softspoken_table : list (nat * bool * N * ofld) := Eval vm_compute in
+  [ (1, false, B "otR1.ms.compressedBytes", OSign DMs); (2, false, B "otR2.phi.compressedBytes", OSign DPhi);
+    (3, true, B "bigRCommitment", OSign DRcom);
+    (3, false, B "mulR1.OtR1.u", OOtU); (3, false, B "mulR1.OtR1.challengeResponse.x", OOtX);
+    (3, false, B "mulR1.OtR1.challengeResponse.t", OOtT);
+    (4, true, B "bigR.compressedBytes", OSign DBigR); (4, true, B "bigRWitness", OSign DRwit);
+    (4, true, B "pk.compressedBytes", OSign DPk);
+    (4, false, B "gammaU.compressedBytes", OSign DGammaU); (4, false, B "gammaV.compressedBytes", OSign DGammaV);
+    (4, false, B "psi.fieldBytes", OSign DPsi); (4, false, B "mulR2.ATilde.fieldBytes", OSign DATilde);
+    (4, false, B "mulR2.Eta.fieldBytes", OSign DEta); (4, false, B "mulR2.Mu", OSign DMu);
+    (5, true, B "r.compressedBytes", OSign DPartR); (5, true, B "u.fieldBytes", OSign DPartU);
+    (5, true, B "w.fieldBytes", OSign DPartW) ].
 Local Close Scope string_scope.
 
 Definition opt_cls {A} (c : A -> cls) (o : option A) : cls :=
@@ -168,6 +202,9 @@ Definition classify (p : proto) (r : nat) (b : bool) (s : N) : cls :=
   | PDkls23 => opt_cls dkls_class (lookup dkls_table r b s)
   | PLindell22 => opt_cls lindell22_class (lookup lindell22_table r b s)
   | PBoldyreva => opt_cls boldyreva_class (lookup boldyreva_table r b s)
+  | PCanetti => opt_cls canetti_class (lookup canetti_table r b s)
+  | PAor => opt_cls aor_class (lookup aor_table r b s)
+  | PSoftspoken => opt_cls softspoken_class (lookup softspoken_table r b s)
   end.
 
 
@@ -479,4 +516,59 @@ Section Algebra.
         if ecdsa_ok pk (dp_r p0) s then Some (dp_r p0, s) else None
       else None
     end.
+
+  (* ---------------------------------------------------------------------------------- *)
+  (* Agree-on-random (pkg/mpc/aor Round3)                                                *)
+  (* ---------------------------------------------------------------------------------- *)
+  Record ados := mkAd { ad_com : term; ad_msg : term; ad_wit : term }.
+  Definition aor_checks : list (check term ados) :=
+    [ mkCheck 3 (fun ck _ m => open ck (ad_com m) (ad_msg m) (ad_wit m)) ].
+
+  (* ---------------------------------------------------------------------------------- *)
+  (* Canetti DKG (pkg/mpc/dkg/canetti Round3 / Round4)                                   *)
+  (* ---------------------------------------------------------------------------------- *)
+  (* round 1 commits to the whole CommitmentMessage (session, sender id, rho, vector X, Schnorr
+     commitment A); round 2 opens it and sends the share; round 3 sends the proof (A, E, Z). *)
+  Record cdos := mkC { c_v : term; c_sid : term; c_shid : N; c_rho : term; c_x : list R; c_a : R; c_u : term;
+                       c_shareid : N; c_share : R; c_pa : R; c_pe : term; c_pz : R }.
+  Record cst := mkCst { c_me : N; c_row : list R; c_d : nat; c_ck : term; c_sess : term;
+                        c_rhoall : term (* the XOR of all rho, bound into the proof context *);
+                        c_e : N -> R (* the scalar of the recomputed challenge for that prover *) }.
+  Definition cmsg (m : cdos) : term := tlist [c_sid m; TB (c_shid m); c_rho m; tscalars (c_x m); TS (c_a m)].
+  Fixpoint peval (e : R) (cs : list R) : R :=
+    match cs with [] => r0 | c :: t => c + e * peval e t end.
+  Definition canetti_checks : list (check cst cdos) :=
+    [ (* Validate *)
+      mkCheck 3 (fun st _ m => term_eqb (c_sid m) (c_sess st));
+      mkCheck 3 (fun st id m => N.eqb (c_shid m) id);
+      mkCheck 3 (fun st _ m => Nat.eqb (List.length (c_x m)) (c_d st));
+      mkCheck 3 (fun st _ m => N.eqb (c_shareid m) (c_me st));
+      (* commitmentKey.Open(V, Message.Bytes(), U) and sharingScheme.Verify(share, X) *)
+      mkCheck 3 (fun st _ m => open (c_ck st) (c_v m) (cmsg m) (c_u m));
+      mkCheck 3 (fun st _ m => reqb (c_share m) (dot (c_row st) (c_x m)));
+      (* Round4: Psi.A = Message.A, the challenge carried by the proof is the recomputed one, and
+         the batch Schnorr equation z.G = A + e.X_1 + e^2.X_2 + ... *)
+      mkCheck 4 (fun st _ m => reqb (c_pa m) (c_a m));
+      mkCheck 4 (fun st id m => term_eqb (c_pe m)
+                   (TH 4 (tlist [c_sess st; TB id; c_rhoall st; tscalars (c_x m); TS (c_pa m)])));
+      mkCheck 4 (fun st id m => reqb (c_pz m) (peval (c_e st id) (c_pa m :: c_x m))) ].
+  (* the last step of Round4 is mpc.NewBaseShard, which re-checks share.G = M_i.V *)
+  Definition canetti_fin (st : cst) (own_s : R) (own_v : list R) (inbox : list (N * cdos)) : option (R * list R) :=
+    let acc := fold_left (fun acc im => (fst acc + c_share (snd im), vadd (snd acc) (c_x (snd im)))) inbox (own_s, own_v) in
+    if reqb (fst acc) (dot (c_row st) (snd acc)) then Some acc else None.
+
+  (* ---------------------------------------------------------------------------------- *)
+  (* DKLs23 with the softspoken multiplier: the signing level is that of the bbot variant  *)
+  (* (dkls_checks one round later); the OT extension adds a consistency check whose        *)
+  (* response t is, for the verifier, a function (free term) of its base-OT view - which   *)
+  (* contains ms AND phi as received - of u and of the challenge x.                        *)
+  (* ---------------------------------------------------------------------------------- *)
+  Record odos := mkO { o_d : ddos; o_otu : term; o_otx : term; o_ott : term }.
+  Definition ot_term (view ms phi u x : term) : term := TH 5 (tlist [view; ms; phi; u; x]).
+  Definition softspoken_checks : list (check dst odos) :=
+    [ mkCheck 4 (fun st _ m => open (d_ck st) (d_rcom (o_d m)) (TS (d_bigr (o_d m))) (d_rwit (o_d m)));
+      mkCheck 4 (fun st id m => term_eqb (o_ott m) (ot_term (d_view st id) (d_ms (o_d m)) (d_phi (o_d m)) (o_otu m) (o_otx m)));
+      mkCheck 5 (fun st id m => term_eqb (d_mu (o_d m)) (mu_term (d_view st id) (o_ott m) (d_atilde (o_d m)) (d_eta (o_d m))));
+      mkCheck 5 (fun st id m => reqb (d_chi st id * d_bigr (o_d m) - d_gu (o_d m)) (d_du st id));
+      mkCheck 5 (fun st id m => reqb (d_chi st id * d_pk (o_d m) - d_gv (o_d m)) (d_dv st id)) ].
 End Algebra.
